@@ -16,6 +16,7 @@
 #include "cppPreprocessor.h"
 
 #include <ctype.h>
+#include <string.h>
 
 using std::string;
 
@@ -321,18 +322,46 @@ would_paste(const string &left, size_t left_end,
     return true;
   }
 
-  // Operators (and comment openers) that begin with the character pair.
-  static const char *const pairs[] = {
+  // Two operators.  Written together they are read by maximal munch; see
+  // whether that still ends a token where the left one ends.  (Comment
+  // openers count as operators here.)
+  static const char operator_chars[] = "+-*/%<>=!&|^:.#";
+  static const char *const long_operators[] = {
+    "<<=", ">>=", "->*", "...", "<=>",
     "++", "--", "->", "<<", ">>", "<=", ">=", "==", "!=", "&&", "||", "+=",
     "-=", "*=", "/=", "%=", "&=", "|=", "^=", "::", ".*", "//", "/*", "##",
-    "..", ">*", "=>", "<:", "<%", "%>", ":>", "%:", nullptr
+    "<:", "<%", "%>", ":>", "%:", nullptr
   };
-  for (int i = 0; pairs[i] != nullptr; ++i) {
-    if (a == pairs[i][0] && b == pairs[i][1]) {
-      return true;
-    }
+  if (strchr(operator_chars, a) == nullptr || b == '\0' ||
+      strchr(operator_chars, b) == nullptr) {
+    return false;
   }
-  return false;
+  size_t start = left_end;
+  while (start > 0 && left[start - 1] != '\0' &&
+         strchr(operator_chars, left[start - 1]) != nullptr) {
+    --start;
+  }
+  string text = left.substr(start, left_end - start);
+  size_t boundary = text.size();
+  for (size_t i = right_begin; i < right.size() && i < right_begin + 3; ++i) {
+    if (right[i] == '\0' || strchr(operator_chars, right[i]) == nullptr) {
+      break;
+    }
+    text += right[i];
+  }
+  size_t p = 0;
+  while (p < boundary) {
+    size_t length = 1;
+    for (int i = 0; long_operators[i] != nullptr; ++i) {
+      size_t n = strlen(long_operators[i]);
+      if (text.compare(p, n, long_operators[i]) == 0) {
+        length = n;
+        break;
+      }
+    }
+    p += length;
+  }
+  return p != boundary;
 }
 
 /**
